@@ -43,10 +43,14 @@ Cond == R("in", 1, 3, 0)      \* the boolean input, used by If only
 
 AddNode(n) == p' = [p EXCEPT !.g[1].nodes = Append(@, n)]
 \* an If node whose two bodies become new graphs at the end of p.g
-AddIf(thenNode, elseNode) ==
-  LET k == Len(p.g) IN
+\* `two`: the then-body gets a second node using the first one (a body whose node order matters)
+AddIf(thenNode, elseNode, two) ==
+  LET k == Len(p.g)
+      thenG == IF two THEN Gr(<<thenNode, Nd("Neg", <<>>, <<R("out", k + 1, 1, 1)>>, 1, <<>>, 0)>>, <<R("out", k + 1, 2, 1)>>, <<>>)
+               ELSE Gr(<<thenNode>>, <<R("out", k + 1, 1, 1)>>, <<>>)
+  IN
   p' = [p EXCEPT !.g = Append(Append([@ EXCEPT ![1].nodes = Append(@, Nd("If", <<>>, <<Cond>>, 1, <<k + 1, k + 2>>, 0))],
-                                     Gr(<<thenNode>>, <<R("out", k + 1, 1, 1)>>, <<>>)),
+                                     thenG),
                               Gr(<<elseNode>>, <<R("out", k + 2, 1, 1)>>, <<>>))]
 
 Build ==
@@ -59,10 +63,11 @@ Build ==
      \/ \E c \in {"c1", "c2"} : "Constant" \in Ops /\ AddNode(Nd("Constant", <<<<"const", c>>>>, <<>>, 1, <<>>, 0))
      \/ \E x \in Avail : "Split" \in Ops /\ AddNode(Nd("Split", <<>>, <<x>>, 2, <<>>, 0))
      \/ \E x \in Avail : "Clip" \in Ops /\ AddNode(Nd("Clip", <<>>, <<x, NoRef, R("init", 1, 3, 0)>>, 1, <<>>, 0))
-     \/ \E x \in Avail, y \in Second, tb \in {"Neg", "Identity"}, eb \in {"Add", "Constant"} :
+     \/ \E x \in Avail, y \in Second, tb \in {"Neg", "Identity", "Neg2"}, eb \in {"Add", "Constant"} :
            /\ "If" \in Ops
-           /\ AddIf(Nd(tb, <<>>, <<x>>, 1, <<>>, 0),
-                    IF eb = "Add" THEN Nd("Add", <<>>, <<x, y>>, 1, <<>>, 0) ELSE Nd("Constant", <<<<"const", "c1">>>>, <<>>, 1, <<>>, 0))
+           /\ AddIf(Nd(IF tb = "Neg2" THEN "Neg" ELSE tb, <<>>, <<x>>, 1, <<>>, 0),
+                    IF eb = "Add" THEN Nd("Add", <<>>, <<x, y>>, 1, <<>>, 0) ELSE Nd("Constant", <<<<"const", "c1">>>>, <<>>, 1, <<>>, 0),
+                    tb = "Neg2")
      \/ \E x \in Avail : "Call" \in Ops /\ AddNode(Nd("F1", <<>>, <<x>>, 1, <<>>, 1))
      \/ \E x \in Avail, y \in Second : "Call" \in Ops /\ AddNode(Nd("F2", <<>>, <<x, y>>, 1, <<>>, 2))
      \/ \E x \in Avail, a \in {<<>>, <<<<"p", "2.0">>>>} : "Call" \in Ops /\ AddNode(Nd("F3", a, <<x>>, 1, <<>>, 3))
